@@ -47,7 +47,7 @@ def run(ctx):
                 "(k in {0,1,N-1,N}, m=1, k=1, single-point grids); distinct by request line")
 
     # ---- comb_jit ------------------------------------------------------------
-    Nmax = ctx.n(45, 70)
+    Nmax = ctx.n(70, 70)      # the property's whole stated scope, in both tiers
     huge = [INTP_MAX, INTP_MAX - 1, 2 ** 62, 2 ** 32, 2 ** 32 + 1, 3037000500, 3037000499, 10 ** 6, 66, 67, 68, 1000]
     pairs = [(N, k) for N in range(-1, Nmax + 1) for k in range(-1, N + 2)]
     for N in huge:
@@ -66,7 +66,7 @@ def run(ctx):
         cases.append(Case("C16 comb N=%d k=%d" % (N, k), str(got), nontrivial=nt, tag="comb"))
 
     # ---- simplex_grid / simplex_index / num_compositions ---------------------------
-    Mm, Nn = ctx.n(5, 6), ctx.n(6, 8)
+    Mm, Nn = ctx.n(6, 6), ctx.n(8, 8)
     for m in range(1, Mm + 1):
         for n in range(0, Nn + 1):
             grid = gt.simplex_grid(m, n)
@@ -79,6 +79,10 @@ def run(ctx):
             if L != len(ref) or Lj != len(ref):
                 ctx.spec_fail("num_compositions", "num_compositions(%d,%d)=%s/%s, true %d" % (m, n, L, Lj, len(ref)),
                               {"op": "numcomp", "m": m, "n": n})
+            for row in ref[:-1]:
+                # branch of the successor loop taken from this row: val = last non-zero entry
+                val = [v for v in row if v != 0][-1] if any(row) else 0
+                ctx.count("simplex:step-val==1(h moves left)" if val == 1 else "simplex:step-val>1(h reset to m)")
             cases.append(Case("C16 simplex m=%d n=%d" % (m, n), intm(grid.tolist()), nontrivial=(m >= 2 and n >= 1), tag="simplex"))
             cases.append(Case("C16 numcomp m=%d n=%d" % (m, n), str(int(L)), nontrivial=(m >= 2 and n >= 1), tag="numcomp"))
             cases.append(Case("C16 numcompjit m=%d n=%d" % (m, n), str(Lj), nontrivial=(m >= 2 and n >= 1), tag="numcomp"))
@@ -105,7 +109,7 @@ def run(ctx):
             cases.append(Case("C16 numcompjit m=%d n=%d" % (m, n), str(Lj), tag="numcomp"))
 
     # ---- next_k_array / k_array_rank ----------------------------------------------------
-    nmax = ctx.n(8, 10)
+    nmax = ctx.n(10, 10)
     for n in range(1, nmax + 1):
         for k in range(1, n + 1):
             # walk as documented
@@ -129,6 +133,52 @@ def run(ctx):
                                   {"op": "krank", "a": list(c)})
                 cases.append(Case("C16 krank a=%s" % ints(c), str(r1), nontrivial=(k >= 2), tag="krank"))
                 cases.append(Case("C16 krankjit a=%s" % ints(c), str(r2), nontrivial=(k >= 2), tag="krank"))
+    # arbitrary strictly increasing arrays (not only those of a walk from arange(k)): successor step
+    def nk_branch(a):
+        k = len(a)
+        if k == 1:
+            return "nextk:k=1"
+        if a[0] + 1 < a[1]:
+            return "nextk:first-branch"
+        i = 1
+        while i < k - 1 and a[i] + 1 == a[i + 1]:
+            i += 1
+        return "nextk:carry-%d%s" % (min(i, 4), "+" if i > 4 else "")
+    for _ in range(ctx.n(300, 3000)):
+        k = ctx.rng.randint(1, 8)
+        run = ctx.rng.randint(0, k)            # a leading run of consecutive values forces carries
+        start = ctx.rng.randint(0, 6)
+        head = list(range(start, start + run))
+        pool = range(start + run + ctx.rng.randint(0, 2), start + run + 30)
+        a = head + sorted(ctx.rng.sample(pool, k - run))
+        ctx.count(nk_branch(a))
+        nxt = [int(t) for t in next_k_array(np.array(a))]
+        rk = sum(math.comb(ai, i + 1) for i, ai in enumerate(a))
+        rk2 = sum(math.comb(ai, i + 1) for i, ai in enumerate(nxt))
+        if not (len(nxt) == k and all(nxt[i] < nxt[i + 1] for i in range(k - 1)) and rk2 == rk + 1):
+            ctx.spec_fail("next_k_array", "next_k_array(%s)=%s is not the colex successor (ranks %d -> %d)" % (a, nxt, rk, rk2),
+                          {"op": "nextk", "a": a, "got": nxt})
+        r1 = int(k_array_rank(np.array(a)))
+        if r1 != rk:
+            ctx.spec_fail("k_array_rank", "rank%s=%d, sum of binomials %d" % (a, r1, rk), {"op": "krank", "a": a})
+        cases.append(Case("C16 nextk a=%s" % ints(a), ints(nxt), nontrivial=(k >= 2), tag="nextk"))
+        cases.append(Case("C16 krank a=%s" % ints(a), str(r1), nontrivial=(k >= 2), tag="krank"))
+    # the jitted twin under its documented guard  comb(a[-1]+1, k) <= INTP_MAX  with huge entries.
+    # ONE fixed probe input for the known finding (comb_jit gives up on the intermediate product N(N-1) although
+    # C(N,2) fits); the other huge inputs are ones on which every comb_jit call is exact.
+    for a in ([0, 4000000000], [0, 3037000500], [0, 3037000499], [7, 3037000000], [0, 1, 2000000]):
+        k = len(a)
+        ref = sum(math.comb(ai, i + 1) for i, ai in enumerate(a))
+        assert math.comb(a[-1] + 1, k) <= INTP_MAX
+        r2 = int(k_array_rank_jit(np.array(a)))
+        if r2 != ref:
+            key = "k_array_rank_jit_doc_guard" if a == [0, 4000000000] else "k_array_rank_jit"
+            ctx.spec_fail(key, "k_array_rank_jit(%s)=%d, true rank %d fits in intp and the documented sufficient condition "
+                          "comb(a[-1]+1,k)<=INTP_MAX holds" % (a, r2, ref), {"op": "krankjit", "a": a, "got": r2, "rank": ref})
+            ctx.count("krankjit:doc-guard-holds-but-wrong")
+        else:
+            ctx.count("krankjit:huge-exact")
+        cases.append(Case("C16 krankjit a=%s" % ints(a), str(r2), tag="krank"))
     # large entries (no overflow in the jitted rank)
     for _ in range(ctx.n(50, 300)):
         k = ctx.rng.randint(1, 6)
@@ -152,7 +202,7 @@ def run(ctx):
             vals = sorted(ctx.rng.sample(range(-8, 9), ln))
             out.append(vals)
         return out
-    shapes = [s for d in range(1, ctx.n(3, 4) + 1) for s in itertools.product(range(1, ctx.n(3, 5) + 1), repeat=d)]
+    shapes = [s for d in range(1, ctx.n(4, 4) + 1) for s in itertools.product(range(1, ctx.n(5, 5) + 1), repeat=d)]
     if not ctx.thorough:
         shapes = [s for s in shapes]
     for shp in shapes:
@@ -173,8 +223,52 @@ def run(ctx):
                               {"op": "cartesian", "nodes": nodes, "order": order})
             cases.append(Case("C16 cartesian nodes=%s order=%s" % (intm(nodes), order), intm(got.tolist()),
                               nontrivial=(len(shp) >= 2 and max(shp) >= 2), tag="cartesian"))
+    # _repeat_1d directly (also with K*N not dividing len(out): the tail stays 0)
+    for _ in range(ctx.n(150, 1000)):
+        N = ctx.rng.randint(1, 5)
+        K = ctx.rng.randint(1, 4)
+        L = ctx.rng.randint(0, 4)
+        extra = ctx.rng.choice([0, 0, 0, 1, 2]) if K * N > 2 else 0
+        extra = min(extra, K * N - 1)
+        total = K * N * L + extra
+        xs = [ctx.rng.randint(-9, 9) for _ in range(N)]
+        out = np.zeros(total, dtype=np.int64)
+        gt._repeat_1d(np.array(xs, dtype=np.int64), K, out)
+        ref = [xs[(i // L) % N] if i < K * N * L else 0 for i in range(total)]
+        if out.tolist() != ref:
+            ctx.spec_fail("_repeat_1d", "_repeat_1d(%s, %d, zeros(%d)) is not x[(ind//L)%%N]" % (xs, K, total),
+                          {"op": "repeat1d", "x": xs, "K": K, "total": total, "got": out.tolist()})
+        ctx.count("repeat1d:ragged" if extra else "repeat1d:exact-fit")
+        cases.append(Case("C16 repeat1d x=%s K=%d total=%d" % (ints(xs), K, total), ints(out.tolist()),
+                          nontrivial=(N >= 2 and K * L >= 2), tag="repeat1d"))
+    # _cartesian_index: exhaustive over small shapes; spec: position of the tuple in itertools.product
+    for shp in [s_ for d in range(1, 4) for s_ in itertools.product(range(1, 4), repeat=d)] + [(2, 3, 4, 5), (5, 1, 3), (1, 1, 1, 1)]:
+        for pos, tup in enumerate(itertools.product(*[range(m_) for m_ in shp])):
+            got = int(gt._cartesian_index(np.array(tup, dtype=np.intp), np.array(shp, dtype=np.intp)))
+            if got != pos:
+                ctx.spec_fail("_cartesian_index", "_cartesian_index(%s,%s)=%d, position %d" % (tup, shp, got, pos),
+                              {"op": "cindex", "ind": list(tup), "nums": list(shp), "got": got})
+            cases.append(Case("C16 cindex ind=%s nums=%s" % (ints(tup), ints(shp)), str(got),
+                              nontrivial=(len(shp) >= 2 and max(shp) >= 2), tag="cindex"))
+    # mlinspace = cartesian of np.linspace grids (spec only: bit-equal to the product of the linspaces)
+    for _ in range(ctx.n(20, 100)):
+        d = ctx.rng.randint(1, 3)
+        lo = [ctx.rng.randint(-4, 4) for _ in range(d)]
+        hi = [l_ + ctx.rng.randint(0, 6) for l_ in lo]
+        nums = [ctx.rng.randint(1, 4) for _ in range(d)]
+        order = ctx.rng.choice("CF")
+        got = gt.mlinspace(lo, hi, nums, order=order)
+        lin = [np.linspace(float(lo[i]), float(hi[i]), nums[i]).tolist() for i in range(d)]
+        if order == "C":
+            ref = [list(t) for t in itertools.product(*lin)]
+        else:
+            ref = [list(reversed(t)) for t in itertools.product(*reversed(lin))]
+        if got.shape != (len(ref), d) or got.tolist() != ref:
+            ctx.spec_fail("mlinspace", "mlinspace(%s,%s,%s,%s) is not the product of the linspaces" % (lo, hi, nums, order),
+                          {"op": "mlinspace", "a": lo, "b": hi, "nums": nums, "order": order})
+        ctx.count("mlinspace:order-" + order)
     # nearest index: dyadic grids and query points (subtractions are exact in double)
-    for _ in range(ctx.n(300, 3000)):
+    for _ in range(ctx.n(600, 3000)):
         d = ctx.rng.randint(1, 4)
         nodes = []
         for _i in range(d):
@@ -183,7 +277,11 @@ def run(ctx):
             nodes.append([Fraction(v, 4) for v in vals])
         x = []
         for g in nodes:
-            kind = ctx.rng.randrange(5)
+            kind = ctx.rng.randrange(7)
+            if kind >= 5 and len(g) >= 2:       # strictly inside a cell, off the mid-point
+                i = ctx.rng.randrange(len(g) - 1)
+                x.append(g[i] + (g[i + 1] - g[i]) * Fraction(ctx.rng.choice([1, 2, 3, 5, 6, 7]), 8)); ctx.count("nearest:in-cell")
+                continue
             if kind == 0:
                 x.append(ctx.rng.choice(g)); ctx.count("nearest:on-grid")
             elif kind == 1 and len(g) >= 2:
@@ -204,11 +302,25 @@ def run(ctx):
         if not (0 <= got < len(d2)) or d2[got] != min(d2):
             ctx.spec_fail("cartesian_nearest_index", "index %d is not a nearest grid point" % got,
                           {"op": "nearest", "nodes": [[str(v) for v in g] for g in nodes], "x": [str(v) for v in x], "order": order, "got": got})
+        for g, xi in zip(nodes, x):
+            if xi <= g[0]:
+                ctx.count("nearest:branch-le-first")
+            elif xi >= g[-1]:
+                ctx.count("nearest:branch-ge-last")
+            else:
+                kk = next(i for i, v in enumerate(g) if xi <= v)
+                dl, dr = xi - g[kk - 1], g[kk] - xi
+                ctx.count("nearest:branch-interior-" + ("upper" if dr < dl else "tie-lower" if dr == dl else "lower"))
+        # the batch (2-D X) entry point must agree with the 1-D one
+        gotb = gt.cartesian_nearest_index(np.array([[float(v) for v in x]] * 2), tnodes, order=order)
+        if [int(t) for t in gotb] != [got, got]:
+            ctx.spec_fail("cartesian_nearest_index_batch", "2-D X gives %s, 1-D x gives %d" % (gotb.tolist(), got),
+                          {"op": "nearest", "nodes": [[str(v) for v in g] for g in nodes], "x": [str(v) for v in x], "order": order})
         cases.append(Case("C16 nearest nodes=%s x=%s order=%s" % (ratm(nodes), rats(x), order), str(got),
                           nontrivial=(max(len(g) for g in nodes) >= 2), tag="nearest"))
 
     ctx.exhaustive = True
     ctx.extra["exhaustive_scope"] = ("comb_jit N<=%d all k in [-1,N+1]; simplex m<=%d n<=%d with every point's index; "
                                      "k-subsets n<=%d; cartesian all shapes d<=%d len<=%d both orders; nearest index sampled"
-                                     % (Nmax, Mm, Nn, nmax, ctx.n(3, 4), ctx.n(3, 5)))
+                                     % (Nmax, Mm, Nn, nmax, 4, 5))
     ctx.run_cases(cases)
